@@ -65,7 +65,7 @@ class Check(CheckBase):
     property_id = 'C20'
     evaluations_counter = 'programs'
     level = 'exploration'
-    rule = ('(bound) programs of read or write calls of sizes d <= L/4 (constant, random, bursts, and the sizes the commands derive: '
+    rule = ('(bound) programs of read or write calls of sizes d <= L/4 (constant, random, bursts, pieces worth under a millisecond, and the sizes the commands derive: '
             'L // (16 N), min 1) through RateLimitedIO.wrap on N in {1,2,5,16} streams sharing one limiter, L in {4,7,1000,64000,1e6,1e9}, '
             'underlying latency r in {0, d/2L, d/L, 2d/L, random}, sleep overshoot in {0, 1ms, 50ms}, run by real threads under a '
             'deterministic virtual-time scheduler (one participant at a time, seeded tie-breaks, scheduler-aware locks in place of '
